@@ -10,16 +10,19 @@ from .common import func_params, value_returns, last_return, XLERR, XLT, is_exce
 
 PROPERTY = 'C10'
 EXPLANATION = (
-    'Decided from source: (C10.1) FunctionNode.eval hands thunk parameters (annotation XlExpr, scalar and var-positional) '
-    'to the function as Expr objects built from the *bound method* eval - no call of .eval on those argument nodes on the '
-    'thunk branches, also not inside helpers called there; the cast for XlExpr does not call its argument; (C10.2) on every '
-    'path through IF the condition thunk is called exactly once and exactly one branch thunk is called, chosen by the '
-    'condition; (C10.3) AND/OR, partially evaluated on recording thunks for short sequences of truth values, blanks and '
-    'array members: thunks are called left to right, none after the decisive one, and the only elements skipped are blanks; NOT negates the truth value of its single thunk; (C10.4) defaults of thunk '
-    'parameters are callable Expr objects (validate_args does not convert defaults); (C10.5) the result of every thunk call '
-    'in IF/AND/OR/NOT is tested for being an error value before its truth value is taken.'
-    ' (C10.2) also on value-class instances (0, FALSE, blank and the empty text select the else-branch); (C10.6) a failed branch evaluation leaves no trace on the evaluator (shared with C06.2).'
-    ' (C10.7) a witness workbook: truth of tiny non-zero numbers, blanks, ranges of formula cells, branches that would fail if evaluated, nested IF/AND/OR against hand-computed values, and a history of edits against freshly compiled models.')
+    'Decided from source: (C10.1) a witness workbook evaluated as written: the branch that is not selected is never '
+    'evaluated - its cell stays uncomputed, an unknown function, a division by zero or a reference to the cell itself in it'
+    ' has no effect - for plain references and calls, for IF and the variable argument lists of AND / OR, and omitted '
+    'branches take their declared defaults; (C10.2) on every path through IF the condition thunk is called exactly once and'
+    ' exactly one branch thunk is called, chosen by the condition; (C10.3) AND/OR, partially evaluated on recording thunks '
+    'for short sequences of truth values, blanks and array members: thunks are called left to right, none after the '
+    'decisive one, and the only elements skipped are blanks; NOT negates the truth value of its single thunk; (C10.4) '
+    'defaults of thunk parameters are callable Expr objects (validate_args does not convert defaults); (C10.5) the result '
+    'of every thunk call in IF/AND/OR/NOT is tested for being an error value before its truth value is taken. (C10.2) also '
+    'on value-class instances (0, FALSE, blank and the empty text select the else-branch); (C10.6) a failed branch '
+    'evaluation leaves no trace on the evaluator (shared with C06.2). (C10.7) a witness workbook: truth of tiny non-zero '
+    'numbers, blanks, ranges of formula cells, branches that would fail if evaluated, nested IF/AND/OR against hand-'
+    'computed values, and a history of edits against freshly compiled models.')
 NOT_DECIDED = 'truth tables over concrete values and blanks'
 TRUSTED = ['inspect.signature binding model of FunctionNode.eval', 'workbook scenarios: pandas storage of range arrays as row-major rows, numpy on Python numbers (IEEE results, 64-bit integer wrap), dateutil.parser.parse rejecting texts that are no dates, openpyxl address arithmetic, inspect.signature built from the FunctionDef']
 
